@@ -5,6 +5,7 @@ package auth
 import (
 	"context"
 	"encoding/json"
+	"strings"
 	"sync/atomic"
 	"testing"
 	"time"
@@ -73,7 +74,16 @@ func TestVerifDriverC17(t *testing.T) {
 			return false
 		}
 		mr.Server().SetPreHook(hook)
+		// odd app names behind plain aliases: a5 = very long, a6 = unicode
+		odd := map[string]string{"a5": strings.Repeat("app-", 200), "a6": "приложение-應用-📱"}
+		name := func(app string) string {
+			if v, ok := odd[app]; ok {
+				return v
+			}
+			return app
+		}
 		call := func(app, token string) int {
+			app = name(app)
 			ctx := metadata.NewIncomingContext(context.Background(),
 				metadata.MD{appKey: []string{app}, tokenKey: []string{token}})
 			err := a.Authenticate(ctx)
@@ -89,9 +99,9 @@ func TestVerifDriverC17(t *testing.T) {
 		for _, op := range c.Ops {
 			switch op.Op {
 			case "set":
-				mr.HSet("apps", op.App, op.Token)
+				mr.HSet("apps", name(op.App), op.Token)
 			case "del":
-				mr.HDel("apps", op.App)
+				mr.HDel("apps", name(op.App))
 			case "down":
 				if up {
 					mr.Close()
@@ -110,7 +120,7 @@ func TestVerifDriverC17(t *testing.T) {
 				codesSeen = append(codesSeen, call(op.App, op.Token))
 				callLookups = append(callLookups, int(atomic.LoadInt32(&hgets)-before))
 			case "expire":
-				a.cache.Del(op.App)
+				a.cache.Del(name(op.App))
 			case "burst":
 				n := len(op.Tokens)
 				before := atomic.LoadInt32(&hgets)
